@@ -2,8 +2,11 @@
 import z3
 from z3 import And, If, Implies, Real, RealVal
 
+from ..contracts.eg_predict import PmfPredict as EGPmf
 from ..contracts.eg_predict import Predict as EGPredict
 from ..contracts.pmf import PmfPredict
+from ..contracts.to_eo import EqualizedOddsCurves
+from ..contracts.tradeoff import TradeoffPoints
 from ..pyvc import solve, verify
 
 
@@ -30,6 +33,13 @@ def items(rep):
     return [(PmfPredict(), [("operations_swapped", verify.replace_expr("interpolation.operation1(base_predictions_vector)", "interpolation.operation0(base_predictions_vector)")),
                             ("p_ignore_complement_dropped", verify.replace_expr("(1 - interpolation.p_ignore) * interpolated_predictions", "interpolation.p_ignore * interpolated_predictions")),
                             ("negative_column_not_complement", verify.replace_expr("1.0 - positive_probs", "positive_probs"))]),
+            # 'without flip, P(1) never decreases with the score': the flip setting reaches the curve construction, which then emits '>' rules only
+            (EqualizedOddsCurves(), [("flip_setting_not_passed_on", verify.replace_expr("_tradeoff_curve(group, sensitive_feature_value, flip=self.flip)", "_tradeoff_curve(group, sensitive_feature_value, flip=True)"))]),
+            (TradeoffPoints("false_positive_rate", "true_positive_rate", False), [("flipped_rules_although_flip_is_off", verify.replace_expr("flip", "True", 0))]),
             (EGPredict(True), [("strict_comparison_with_the_draw", verify.flip_strictness(0))]),
+            (EGPmf(True), [("zero_test_by_position", verify.replace_expr("self.weights_[t]", "self.weights_.iloc[t]")),
+                           ("mixture_paired_by_position", verify.replace_expr("pred[self.weights_.index]", "pred"))]),
+            (EGPmf(False), []),
             (EGPredict(False), [("weights_paired_by_position", verify.replace_expr("self.weights_[pred.columns]", "self.weights_")),
-                                ("every_row_drawn_from_row_zero", verify.replace_expr("pred.iloc[i, :]", "pred.iloc[0, :]"))])]
+                                ("every_row_drawn_from_row_zero", verify.replace_expr("pred.iloc[i, :]", "pred.iloc[0, :]")),
+                                ("global_generator_instead_of_the_seeded_one", verify.replace_expr("random_state.choice", "np.random.choice"))])]
